@@ -9,11 +9,13 @@ Local Open Scope Z_scope.
    array[t][row][col] = v, which truncates a float towards zero when the automaton has an integer dtype. *)
 Definition store_of (scale : Z) : Z -> Z := if scale =? 1 then store_id else fun q => Z.quot q scale.
 
-(* the dtype of an array, by name; DOther = anything else (never equal to anything) *)
-Inductive dtype := DBool | DInt32 | DInt64 | DUInt8 | DUInt64 | DFloat64 | DOther.
+(* the dtype of an array, by name; DOther = anything else (never equal to anything).  DObject: cells are Python ints
+   or None; None is carried as one fixed sentinel integer on both sides (harness/props/c02.py NONE_Z) *)
+Inductive dtype := DBool | DInt32 | DInt64 | DUInt8 | DUInt64 | DFloat64 | DObject | DOther.
 Definition dtype_eqb (a b : dtype) : bool :=
   match a, b with
-  | DBool, DBool | DInt32, DInt32 | DInt64, DInt64 | DUInt8, DUInt8 | DUInt64, DUInt64 | DFloat64, DFloat64 => true
+  | DBool, DBool | DInt32, DInt32 | DInt64, DInt64 | DUInt8, DUInt8 | DUInt64, DUInt64 | DFloat64, DFloat64
+  | DObject, DObject => true
   | _, _ => false
   end.
 
